@@ -576,6 +576,8 @@ def conv_case(ctx, drv, base, tms, rng, c14):
     dt, cv = rng.choice([("U3", None), ("U8", None), ("U20", "utf8"), ("i8", None), ("f8", None), ("f8", "exponent"),
                          ("f8", "dms2deg"), ("O", "epoch"), ("O", "tuple"), ("O", "yyyydddsssss")])
     t = rng.choice(CONV_TEXTS) if rng.random() < 0.7 else "".join(rng.choice("0123456789.-+eED: ") for _ in range(rng.randint(1, 14))).strip()
+    if rng.random() < 0.08:
+        t = ""  # the missing value
     if re.search(r"[eEdD][+-]?\d{3}", t):  # exponents beyond the doubles: the model's exact rational has thousands of digits
         t = re.sub(r"([eEdD][+-]?\d{2})\d+", r"\1", t)
     # two records so that the tested text is not the one genfromtxt sniffs the converter with; both orders
